@@ -102,7 +102,11 @@ extern "C"{
 #define CO_SDO_ERR_PARA_INCOMP  0x06040043    /*!< parameter incompatibility reason       */
 #define CO_SDO_ERR_GENERAL      0x08000000    /*!< General error                          */
 
+#if defined(CO_STACK_VERIF) && defined(CO_VERIF_SDO_BUF_SEG)
+#define CO_SDO_BUF_SEG     CO_VERIF_SDO_BUF_SEG  /* verification build variant: small blocks */
+#else
 #define CO_SDO_BUF_SEG     127
+#endif
 #define CO_SDO_BUF_BYTE    (CO_SDO_BUF_SEG*7) /*!< transfer buffer size in byte           */
 
 /******************************************************************************
